@@ -5,12 +5,16 @@ import datetime as _dt
 import itertools
 import os
 import random
+import json
 import shutil
+import subprocess
+import sys
 import tempfile
+import types
 
 from .. import io_c17 as io17
 from .. import observe, probes
-from ..core import subseed
+from ..core import VERIF_DIR, subseed
 
 ID = "C17"
 TITLE = "writers lose nothing (close / split / rotation)"
@@ -20,9 +24,14 @@ RULE = (
     "with-exit.close | close.with-exit (75 histories) for each of 11 adapters (stream plain/.gz/.bz2/.lz4/.zst, jsonfile, "
     "avro, sqlite, csvfile, line, text); thorough adds random histories of up to 12 operations.  (b) split: every N in "
     "0..3*limit+1 x limit {1,2,3,7} x suffix length {1,2,3} x target {stream, .gz, json, avro, no extension, URI forms} x "
-    "{with-exit, close}.  (c) rotation: PathTemplateWriter / RecordArchiver / archive:// over templates of _generated with "
-    "a directory component, timestamp patterns alternating between 2-3 targets inside one wall-clock second, one or two "
-    "writer generations, with / without sentinel files at the targets (and at the names a rotation would pick).  The seed "
+    "{with-exit, close}, plus splits into more parts than 10**suffix-length (11..24 parts with suffix length 1; thorough > 100 with "
+    "suffix length 2); an audit hook on 'open' checks that no path is opened for writing twice.  (c) rotation: PathTemplateWriter / RecordArchiver / archive:// over templates of _generated with "
+    "a directory component - hour/day granularity AND templates that vary within one hour (minute / second fields of _generated, "
+    "record data fields {record.host} / {record.n}; all records of such a case lie in one hour) -, timestamp patterns alternating between 2-3 targets inside one wall-clock second, one or two "
+    "writer generations, with / without sentinel files at the targets (and at the names a rotation would pick); the expected "
+    "file of a record is our own str.format of the template text over a plain model of the record.  (d) the same close "
+    "histories with the writer opened on standard output ('-', '', stream://, jsonfile://, avro://; thorough also csvfile / line / "
+    "text and all 75 histories) in one worker process per case, the captured bytes read like a file.  The seed "
     "varies the record values only; the enumerated spaces are the same for every seed.  A case is non-trivial when the "
     "writer was created and its history ran; distinct = distinct (part, adapter/target, history or N/limit/suffix or "
     "pattern/sentinel mode).  Oracle: conservation - the canonical observations (observe.obs) found on disk by the format's "
@@ -43,6 +52,8 @@ ASSUMPTIONS = [
     "what was handed to write() (a write() that raises therefore counts as a lost record)",
     "rotated files are recognised by directory and by containing the stem (text before the first dot) of the template name",
     "the writer object is dropped after the history, so AbstractWriter.__del__ adds one more close() to every history",
+    "stdout workers run with PYTHONIOENCODING=utf-8 and stdout connected to a pipe (not a tty); the interpreter's own flush of "
+    "sys.stdout at exit is part of the observed behaviour; split:// on stdout (which never splits) is not exercised",
 ]
 SHARDS = {"quick": 8, "thorough": 16}
 BUDGET_S = {"quick": 150, "thorough": 900}
@@ -84,12 +95,34 @@ SPLIT_QUICK = ["stream", "gz", "json", "avro", "noext", "uri-stream", "uri-json"
 SPLIT_LIMITS = [1, 2, 3, 7]
 SUFFIX_LENGTHS = [1, 2, 3]
 
+# writers opened on the process's standard output (run in a worker subprocess): name -> (writer URI, adapter kind, shapes)
+STDOUT_TARGETS = {
+    "dash": ("-", "stream", "xyz"),
+    "empty": ("", "stream", "xyz"),
+    "stream-uri": ("stream://", "stream", "xyz"),
+    "jsonfile": ("jsonfile://", "jsonfile", "xyz"),
+    "avro": ("avro://", "avro", "x"),
+    "avro-dash": ("avro://-", "avro", "x"),
+    "csvfile": ("csvfile://", "csvfile", "xy"),
+    "line": ("line://", "line", "xyz"),
+    "text": ("text://", "text", "xyz"),
+}
+STDOUT_QUICK_TARGETS = ["dash", "empty", "jsonfile", "avro"]
+STDOUT_QUICK_HISTORIES = ["c", "x", "fc", "fx", "cc", "cx", "xc", "wc", "wx", "wwc", "wwx", "wfwc", "fwc", "fwwx", "wcc", "wxc", "wcx", "wwwc"]
+WORKER_TIMEOUT_S = 120
+
 ROT_WRITERS = ["ptw", "archiver", "archive-uri"]
 ROT_TEMPLATES = {
-    # name -> (template relative to the root, strftime model of the same path)
-    "hour": ("{ts:%Y}/{name}-{record._generated:%Y%m%dT%H}", "%Y/{name}-%Y%m%dT%H"),
-    "daydir": ("{ts:%Y/%m/%d}/{name}-{ts:%H}h", "%Y/%m/%d/{name}-%Hh"),
-    "default": ("d/{name}-{record._generated:%Y%m%dT%H}", "d/{name}-%Y%m%dT%H"),
+    # name -> (template relative to the root (PathTemplateWriter) - its last component is what RecordArchiver / archive://
+    #          get as path_template -, dimension in which the pattern letters differ)
+    "hour": ("{ts:%Y}/{name}-{record._generated:%Y%m%dT%H}", "hour"),
+    "daydir": ("{ts:%Y/%m/%d}/{name}-{ts:%H}h", "hour"),
+    "default": ("d/{name}-{record._generated:%Y%m%dT%H}", "hour"),
+    # templates that vary WITHIN one hour: minute / second fields of _generated and record data fields
+    "minute": ("{ts:%Y%m%d}/{name}-{ts:%H%M}", "minute"),
+    "second": ("s/{name}-{record._generated:%H}h{record._generated:%M%S}", "second"),
+    "host": ("{record.host}/{name}-{ts:%Y%m%dT%H}", "host"),
+    "n": ("by-n/{name}-n{record.n}-{ts:%H}", "n"),
 }
 ROT_EXTS = [".records.gz", ".records", ".json"]
 ROT_PATTERNS = ["ababa", "abab", "aabba", "abcabc", "abcba", "aba", "ab", "aaab", "abacabac"]
@@ -113,10 +146,26 @@ def setup(ctx):
             ctx.state["renames"].append((src, dst, os.path.lexists(src), os.path.lexists(dst)))
 
     ctx.state["audit"] = probes.Audit.subscribe(["os.rename"], on_rename)
+    ctx.state["opens"] = []
+
+    def on_open(event, args):
+        path, mode, flags = args[0], args[1], args[2]
+        if not isinstance(path, (str, bytes)):
+            return
+        path = os.fsdecode(path)
+        if not path.startswith(ctx.state["tmp"]):
+            return
+        writing = ("w" in mode or "x" in mode or "a" in mode or "+" in mode) if isinstance(mode, str) else bool(
+            isinstance(flags, int) and flags & (os.O_WRONLY | os.O_RDWR))
+        if writing:
+            ctx.state["opens"].append(path)
+
+    ctx.state["audit_open"] = probes.Audit.subscribe(["open"], on_open)
 
 
 def teardown(ctx):
     probes.Audit.unsubscribe(ctx.state["audit"])
+    probes.Audit.unsubscribe(ctx.state["audit_open"])
     ctx.state["reach"].stop()
     shutil.rmtree(ctx.state["tmp"], ignore_errors=True)
 
@@ -148,6 +197,17 @@ def generate(ctx):
                             yield {"k": "split", "tg": tg, "limit": limit, "sl": sl, "n": n, "end": end,
                                    "s": subseed("c17", ctx.seed, "b", tg, limit, sl, n, end)}
                         idx += 1
+    # (b') more parts than 10**suffix_length (a wrapping suffix would reuse the name of an earlier part)
+    wrap = [(1, 1, 11), (1, 1, 12), (1, 1, 23), (2, 1, 21), (2, 1, 24)]
+    if not ctx.quick:
+        wrap += [(1, 2, 101), (1, 2, 105), (2, 2, 203), (3, 1, 35), (1, 1, 101)]
+    for tg in (["stream", "json", "gz", "uri-stream"] if ctx.quick else list(SPLIT_TARGETS)):
+        for limit, sl, n in wrap:
+            for end in ("x", "c"):
+                if ctx.mine(idx):
+                    yield {"k": "split", "tg": tg, "limit": limit, "sl": sl, "n": n, "end": end, "wrap": 1,
+                           "s": subseed("c17", ctx.seed, "bw", tg, limit, sl, n, end)}
+                idx += 1
     # (c) rotation
     for wk in ROT_WRITERS:
         for tname in ROT_TEMPLATES:
@@ -161,6 +221,12 @@ def generate(ctx):
                             yield {"k": "rot", "w": wk, "t": tname, "ext": ext, "pat": pat, "sent": sent, "phases": phases,
                                    "s": subseed("c17", ctx.seed, "c", wk, tname, ext, pat, sent)}
                         idx += 1
+    # (d) writers on standard output, one worker process per case
+    for tg in (STDOUT_QUICK_TARGETS if ctx.quick else list(STDOUT_TARGETS)):
+        for h in (STDOUT_QUICK_HISTORIES if ctx.quick else list(all_histories())):
+            if ctx.mine(idx):
+                yield {"k": "stdout", "tg": tg, "h": h, "s": subseed("c17", ctx.seed, "d", tg, h)}
+            idx += 1
     if ctx.quick:
         return
     # thorough: random longer histories, larger splits, longer rotation patterns (seeded)
@@ -316,6 +382,7 @@ def exec_split(ctx, case):
     expected = io17.observe_all(records)
     errors = []
     ctx.ev()
+    ctx.state["opens"].clear()
     try:
         if scheme == "<SplitWriter>":
             from flow.record.adapter.split import SplitWriter
@@ -336,11 +403,21 @@ def exec_split(ctx, case):
     ctx.nontrivial("split", case["tg"], limit, sl, n, end)
     ctx.cell("split", case["tg"], "limit%d" % limit, "n%%limit=%s" % ("0" if n % limit == 0 else "r"))
     ctx.event("b_cases")
+    if n > limit * 10 ** sl:
+        ctx.event("b_cases_more_parts_than_suffix_space")
     ctx.event("b_records_written", n)
     for e in errors:
         ctx.event("b_op_raised:%s:%s" % (case["tg"], e["op"]))
     extra = {"target": case["tg"], "limit": limit, "suffix_length": sl, "n": n, "end": end, "op_errors": errors}
 
+    # open monitor: the writer must never open the same path for writing twice (a later part replacing an earlier one)
+    opened = list(ctx.state["opens"])
+    ctx.state["opens"].clear()
+    ctx.event("b_write_opens", len(opened))
+    twice = sorted({p for p in opened if opened.count(p) > 1})
+    if twice:
+        ctx.violation(None, "split: two parts share a path (the same file was opened for writing more than once)",
+                      detail=dict(extra, paths=[p[len(d):] for p in twice[:6]], opens=len(opened)))
     names = sorted(os.listdir(d))
     parts = []
     for nm in names:
@@ -438,7 +515,7 @@ def exec_rotation(ctx, case):
 
     rng = random.Random(case["s"])
     wk, ext, pat, sent = case["w"], case["ext"], case["pat"], case["sent"]
-    tmpl_rel, model = ROT_TEMPLATES[case["t"]]
+    tmpl_rel, dim = ROT_TEMPLATES[case["t"]]
     name = rng.choice(["records", "nm", "x1"])
     kind = ROT_KIND[ext]
     spec = io17.KINDS[kind]
@@ -446,26 +523,54 @@ def exec_rotation(ctx, case):
     root = case_dir(ctx)
     ctx.ev()
 
-    # one timestamp bucket per target letter: different hours (and for 'c' a different day), minutes/seconds random
-    bucket = {"a": BASE_TS + _dt.timedelta(days=rng.randrange(300)), }
-    bucket["b"] = bucket["a"] + _dt.timedelta(hours=1)
-    bucket["c"] = bucket["a"] + _dt.timedelta(days=1, hours=rng.choice([0, 2]))
-    stamps = [bucket[ch] + _dt.timedelta(minutes=rng.randrange(60), seconds=rng.randrange(60), microseconds=rng.randrange(10**6)) for ch in pat]
-    records = io17.make_records(case["s"], len(pat), spec["shapes"], generated=stamps)
+    # the pattern letters name the targets; they differ in the dimension the template varies in, everything the
+    # template does not mention is random per record.  Within-hour templates keep ALL records inside one hour.
+    base = BASE_TS + _dt.timedelta(days=rng.randrange(300))
+    letters = "abc"
+    stamps, rec_extra = [], []
+    hosts = rng.sample(["alpha", "bravo", "host-3", "h"], 3)
+    ns = rng.sample([11, 22, 33, 44], 3)
+    for ch in pat:
+        li = letters.index(ch)
+        if dim == "hour":
+            b = base + (_dt.timedelta(hours=1) if ch == "b" else _dt.timedelta(days=1, hours=(case["s"] % 2) * 2) if ch == "c" else _dt.timedelta(0))
+            ts = b + _dt.timedelta(minutes=rng.randrange(60), seconds=rng.randrange(60), microseconds=rng.randrange(10**6))
+        elif dim == "minute":
+            ts = base + _dt.timedelta(minutes=7 + 20 * li, seconds=rng.randrange(60), microseconds=rng.randrange(10**6))
+        elif dim == "second":
+            ts = base + _dt.timedelta(minutes=31, seconds=5 + 13 * li, microseconds=rng.randrange(10**6))
+        else:
+            ts = base + _dt.timedelta(minutes=rng.randrange(60), seconds=rng.randrange(60), microseconds=rng.randrange(10**6))
+        stamps.append(ts)
+        rec_extra.append({"host": hosts[li] if dim == "host" else rng.choice(hosts), "n": ns[li] if dim == "n" else rng.choice(ns)})
+    shapes = "h" if dim in ("host", "n") else spec["shapes"] + "h"
+    records = io17.make_records(case["s"], len(pat), shapes, generated=stamps, extra=rec_extra)
     expected = io17.observe_all(records)
+    if dim != "hour":
+        ctx.event("c_within_hour_cases")
+        if len({(t.year, t.month, t.day, t.hour) for t in stamps}) != 1:
+            raise AssertionError("within-hour workload left the hour")
 
-    # where the template puts each record (model: strftime of the same timestamp)
+    # where the template puts each record: our own str.format of the same template text over a plain model of the record
+    # (plain datetime, plain str/int fields) - independent of the field types' __format__
     if wk == "ptw":
-        rel_model = model + ext
         template = os.path.join(root, tmpl_rel + ext)
+        full = template
     else:
-        # RecordArchiver prefixes {ts:%Y/%m/%d}
-        rel_model = "%Y/%m/%d/" + model.split("/")[-1] + ext
-        template = tmpl_rel.split("/")[-1] + ext
+        template = (tmpl_rel.split("/")[-1] if dim == "hour" else tmpl_rel) + ext
+        full = os.path.join(root, "{ts:%Y/%m/%d}", template)  # RecordArchiver prefixes {ts:%Y/%m/%d}
         if case["t"] == "default" and ext == ".records.gz":
             template = None  # the archiver's own DEFAULT_TEMPLATE: {name}-{record._generated:%Y%m%dT%H}.records.gz
             ctx.event("c_default_template")
-    targets = [os.path.join(root, ts.strftime(rel_model.replace("{name}", name))) for ts in stamps]
+    targets = []
+    for ts, ex in zip(stamps, rec_extra):
+        model = types.SimpleNamespace(_generated=ts, host=ex["host"], n=ex["n"])
+        targets.append(full.format(name=name, record=model, ts=ts))
+    by_letter = {}
+    for ch, t in zip(pat, targets):
+        by_letter.setdefault(ch, set()).add(t)
+    if any(len(v) != 1 for v in by_letter.values()) or len({next(iter(v)) for v in by_letter.values()}) != len(by_letter):
+        raise AssertionError("rotation workload: pattern letters do not map one-to-one onto template targets")
 
     # sentinels
     sentinels = {}  # path -> bytes
@@ -609,7 +714,86 @@ def exec_rotation(ctx, case):
     shutil.rmtree(root, ignore_errors=True)
 
 
+# ---- (d) writers on standard output -----------------------------------------------------------------
+def exec_stdout(ctx, case):
+    uri, kind, shapes = STDOUT_TARGETS[case["tg"]]
+    hist = case["h"]
+    spec = io17.KINDS[kind]
+    fam = spec["fam"]
+    nw = hist.count("w")
+    records = io17.make_records(case["s"], nw, shapes, generated=io17.fixed_generated(nw))
+    expected = io17.observe_all(records)
+    env = dict(os.environ)
+    pp = env.get("PYTHONPATH", "")
+    if VERIF_DIR not in pp.split(os.pathsep):
+        env["PYTHONPATH"] = VERIF_DIR + (os.pathsep + pp if pp else "")
+    env.setdefault("PYTHONHASHSEED", "0")
+    env["PYTHONIOENCODING"] = "utf-8"
+    ctx.ev()
+    try:
+        p = subprocess.run([sys.executable, "-W", "ignore", "-m", "verif.worker_c17", uri, hist, str(case["s"]), shapes], env=env, cwd=VERIF_DIR,
+                           stdin=subprocess.DEVNULL, stdout=subprocess.PIPE, stderr=subprocess.PIPE, timeout=WORKER_TIMEOUT_S)
+    except subprocess.TimeoutExpired:
+        ctx.require(False, "a C17 stdout worker exceeded its %d s watchdog" % WORKER_TIMEOUT_S)
+        return
+    ctx.event("d_workers_run")
+    err_text = p.stderr.decode("utf-8", "replace")
+    line = next((ln for ln in err_text.splitlines() if ln.startswith("C17WORKER ")), None)
+    if line is None:
+        ctx.violation(None, "stdout worker died (exit %s)" % p.returncode, detail={"stderr": err_text[-2500:], "target": uri, "history": hist})
+        return
+    status = json.loads(line[len("C17WORKER "):])
+    repo = os.path.realpath(os.environ.get("VERIF_REPO", "/repo"))
+    if not os.path.realpath(status["flow_record_file"]).startswith(repo + os.sep):
+        ctx.require(False, "C17 stdout worker imported flow.record from %s, not from %s" % (status["flow_record_file"], repo))
+        return
+    if not status.get("created"):
+        ctx.violation(None, "stdout: the writer cannot be created", detail={"error": status.get("create_error"), "target": uri})
+        return
+    errors = status["errors"]
+    ctx.nontrivial("stdout", case["tg"], hist)
+    ctx.cell("stdout", case["tg"], hist[-2:] if hist[-2:] in ("cc", "xc", "cx") else hist[-1:])
+    ctx.event("d_cases")
+    ctx.event("d_records_written", nw)
+    ctx.event("d_bytes_captured", len(p.stdout))
+    for e in errors:
+        ctx.event("d_op_raised:%s:%s" % (case["tg"], e["op"]))
+    extra = {"target": uri, "history": hist, "op_errors": errors, "captured_bytes": len(p.stdout), "exit": p.returncode,
+             "stderr": "\n".join(ln for ln in err_text.splitlines() if not ln.startswith("C17WORKER "))[-1200:]}
+    if p.returncode != 0:
+        ctx.violation(None, "stdout: the process using the writer exited with an error", detail=extra)
+    # the captured bytes are what a file would hold: same readers, same oracle as part (a)
+    d = case_dir(ctx)
+    path = os.path.join(d, "stdout" + spec["ext"])
+    with open(path, "wb") as f:
+        f.write(p.stdout)
+    view = io17.inspect_file(fam, spec["codec"], path)
+    problems = io17.diff_view(fam, view, expected)
+    if nw == 0 and fam not in io17.VALID_EMPTY_FAMILIES:
+        problems = [q for q in problems if q[0] == "indep-mismatch"]
+    if view.indep is not None:
+        ctx.event("d_independent_reads")
+    if view.reader_obs is not None:
+        ctx.event("d_reader_reads")
+    if nw == 0 and not problems and fam in io17.VALID_EMPTY_FAMILIES:
+        ctx.event("d_empty_outputs_valid")
+    if problems:
+        key = None
+        first_closing = next(op for op in hist if op in "cx")
+        if fam == "stream" and nw == 0 and first_closing == "c" and "f" not in hist and stream_empty_mechanism(view, problems):
+            key = "stream-close-without-flush-empty"
+        elif fam == "avro" and nw and avro_placeholder_mechanism(view, hist, errors, problems):
+            key = "avro-flush-before-first-write"
+        report(ctx, key, "stdout %r after history %s" % (uri, hist), problems, extra)
+    else:
+        ctx.event("d_held")
+    ctx.sample({"case": case, "captured_bytes": len(p.stdout), "op_errors": errors}, kind="stdout:" + case["tg"])
+    shutil.rmtree(d, ignore_errors=True)
+
+
 def execute(ctx, case):
+    if case["k"] == "stdout":
+        return exec_stdout(ctx, case)
     if case["k"] == "hist":
         exec_history(ctx, case)
     elif case["k"] == "split":
@@ -631,8 +815,13 @@ def finish(ctx):
     ctx.require(ev.get("a_empty_outputs_valid", 0) > 0, "part (a): no empty output was validated")
     ctx.require(ev.get("b_cases", 0) > 0 and ev.get("b_parts_read", 0) > 0 and ev.get("b_raw_concatenations", 0) > 0,
                 "part (b): no split output was read back")
+    ctx.require(ev.get("b_write_opens", 0) >= ev.get("b_parts", 0) > 0, "part (b): the open monitor did not see the parts being opened")
+    ctx.require(ev.get("b_cases_more_parts_than_suffix_space", 0) > 0, "part (b): no split with more parts than 10**suffix-length")
+    ctx.require(ev.get("c_within_hour_cases", 0) > 0, "part (c): no template varying within one hour")
     ctx.require(ev.get("c_cases", 0) > 0 and ev.get("c_rename_events", 0) > 0 and ev.get("c_files_read", 0) > 0,
                 "part (c): the rename monitor saw no rename or no rotated file was read")
     ctx.require(ev.get("c_sentinels_rotated", 0) > 0, "part (c): no sentinel file was rotated")
+    ctx.require(ev.get("d_cases", 0) > 0 and ev.get("d_independent_reads", 0) > 0 and ev.get("d_bytes_captured", 0) > 0,
+                "part (d): no standard-output capture was read back")
     for q in ANCHORS:
         ctx.require(ctx.reach.get(q, 0) > 0, "anchor %s was never entered" % q)
